@@ -225,7 +225,7 @@ func (w *world) callSummarized(caller *frame, callpos token.Pos, fn *ssa.Functio
 		defer func() {
 			w.summaryDepth--
 			if p := recover(); p != nil {
-				if ab, isAb := p.(engineAbort); isAb && (ab.kind == abStop) {
+				if ab, isAb := p.(engineAbort); isAb && (ab.kind == abStop || ab.kind == abRetry) {
 					w.sum = saved
 					panic(p)
 				}
